@@ -280,7 +280,9 @@ def write_evidence(prop, tier, seed, level, merged, rule, assumptions, wall, nvi
     if merged["states"] and merged["transitions"]:
         cov["states"] = int(merged["states"])
         cov["transitions"] = int(merged["transitions"])
-        cov["traces_validated_against_impl"] = int(merged["evaluations"])
+        # every explored transition executes the real code; where the search branches from snapshots, each newly found
+        # state is additionally re-reached by a from-scratch replay of its shortest path (counter replay_validations)
+        cov["traces_validated_against_impl"] = int(merged["counters"].get("replay_validations") or merged["evaluations"])
     elif merged["transitions"]:
         cov["transitions"] = int(merged["transitions"])
     if extra:
